@@ -33,6 +33,14 @@ pub struct AnyOpts {
     pub unchecked: bool,
     pub budget: usize,
     pub iterators: bool,
+    /// bit structures: every select index is asked when the count is at most this
+    pub full_select_upto: usize,
+}
+
+impl AnyOpts {
+    pub fn new(unchecked: bool, budget: usize, iterators: bool) -> Self {
+        AnyOpts { unchecked, budget, iterators, full_select_upto: 3000 }
+    }
 }
 
 pub fn bits_case(kinds: Vec<BitsKind>, max_n: usize, max_groups: usize) -> BoxedStrategy<BitsCase> {
@@ -129,7 +137,7 @@ impl AnyVal {
     pub fn check(&self, seed: u64, o: AnyOpts, ctx: &mut Ctx) -> CheckResult {
         match self {
             AnyVal::Seq(t, m) => check_tree(t.as_ref(), m, seed, SeqOpts { prefetch: true, unchecked: o.unchecked, budget: o.budget, full_get_upto: 2000 }, ctx),
-            AnyVal::Bits(v, m) => check_bits(v, m, seed, BitOpts { unchecked: o.unchecked, budget: o.budget, iterators: o.iterators && m.n() <= 400_000, words: true, full_select_upto: 3000 }, ctx),
+            AnyVal::Bits(v, m) => check_bits(v, m, seed, BitOpts { unchecked: o.unchecked, budget: o.budget, iterators: o.iterators && m.n() <= 400_000, words: true, full_select_upto: o.full_select_upto }, ctx),
             AnyVal::Quad(v, m) => check_quads(v, m, seed, QuadOpts { unchecked: o.unchecked, budget: o.budget, iterators: o.iterators && m.n() <= 400_000 }, ctx),
         }
     }
